@@ -8,6 +8,7 @@ import SV.TxCache.EvictPost
 import SV.TxCache.ReachableProofs
 import SV.GenProofs.TxThresholds
 import SV.GenProofs.TxLists
+import SV.TxCache.GoList
 namespace SV.Props.C04
 open SV SV.TxCache
 
@@ -94,5 +95,28 @@ theorem source_lower_nonce_removal_is_the_models (n : Nat) (c : Tx) (rest : List
     dropLowerOrEqual n (c :: rest) =
       (if Gen.removeLowerStops c.nonce n = [true] then c :: rest else dropLowerOrEqual n rest) :=
   GenProofs.dropLowerOrEqual_cons_eq_source n c rest
+
+/-! ### Go's `container/list` is not assumed: the per-sender list code transcribed over a faithful model of the library
+    (node heap with next/prev/list pointers, sentinel root, the library's guards) refines the plain-list model
+    (SV/TxCache/GoList.lean) -/
+open GoList in
+/-- `txListForSender.AddTx` (findInsertionPlace walking `Back()/Prev()`, `PushFront`/`InsertAfter`, `applySizeConstraints`)
+    over the transcribed library yields exactly the model's `insertTx` followed by `trim1`, flags and evicted hashes included -/
+theorem go_list_addTx_is_the_models (cfg : Config) {s : SenderList} (h : SWF s) (t : Tx) :
+    match insertTx t s.items.toList with
+    | none => s.addTx cfg t = (s, false, [])
+    | some l' => SWF (s.addTx cfg t).1 ∧ (s.addTx cfg t).1.items.toList = (trim1 cfg l').1
+        ∧ (s.addTx cfg t).2 = (true, (trim1 cfg l').2.map (·.hash)) := addTx_refines cfg h t
+open GoList in
+/-- the removal walk of RemoveTxByHash over the transcribed library is the model's `dropLowerOrEqual`, hashes in list order -/
+theorem go_list_lower_nonce_removal_is_the_models (k : Nat) {s : SenderList} (h : SWF s) :
+    SWF (s.removeLowerOrEqual k).1
+    ∧ (s.removeLowerOrEqual k).1.items.toList = dropLowerOrEqual k s.items.toList
+    ∧ (s.removeLowerOrEqual k).2
+        = (s.items.toList.take (s.items.toList.length - (dropLowerOrEqual k s.items.toList).length)).map (·.hash) :=
+  removeLowerOrEqual_refines k h
+open GoList in
+/-- what `GetTransactionsPoolForSender` hands out is the list front to back -/
+theorem go_list_getTxs_is_the_list (s : SenderList) : s.getTxs = s.items.toList := getTxs_eq s
 
 end SV.Props.C04
